@@ -1203,4 +1203,232 @@ theorem tick_qw (P : Prog) (c d : Cfg) (h : QW c d) (hinv : InvP c) (hI : Inv c)
   rw [hl1] at this
   exact this
 
+theorem stepBodyK_terminal (P : Prog) (k : Cfg → Cfg) (c : Cfg) (ht : terminal c.st.label = true) :
+    stepBodyK P k c = k (endOfStep { c with stepping := true } (.next none)) := by
+  obtain ⟨h1, h2, h3⟩ := not_live_of_terminal ht
+  unfold stepBodyK; dsimp only
+  split
+  · rename_i fn h; exact absurd h (h1 fn)
+  · rename_i fn a k h; exact absurd h (h2 fn a k)
+  · rename_i fn wf wk aw h; exact absurd h (h3 fn wf wk aw)
+  · rfl
+
+theorem endOfStep_terminal_pf (c : Cfg) (ht : terminal c.st.label = true) (hi : c.interrupt = none)
+    (hs : c.stepping = false) :
+    PFrame c (endOfStep { c with stepping := true } (.next none)) ∧
+    (endOfStep { c with stepping := true } (.next none)).interrupt = none := by
+  rw [endOfStep_unfold, prepare_next_other _ none (by intro e he; cases he)]
+  have e1 : dispatch { c with stepping := true } none = { c with stepping := true } := by
+    unfold dispatch; simp [ht]
+  dsimp only
+  rw [e1]
+  unfold finally_
+  refine ⟨PFrame.trans ?_ (setInterrupt_pf _ none), setInterrupt_none_interrupt _⟩
+  refine ⟨?_, rfl, rfl, rfl⟩
+  rw [sh_eq_iff]; simp [hs]
+
+/-- a tick while the run with pauses is suspended on a pause future: nothing, or re-suspension on a newer pause future, or
+(released) the rest of the loop that the reference run has already executed -/
+theorem tick_lag (P : Prog) (c d : Cfg) (h : Lag P c d) (hinv : InvP c) (hI : Inv c) :
+    SL P (tickStepper P c) d := by
+  obtain ⟨hap, d0, n, hn, hD, hd, hm⟩ := h
+  cases hpc : c.pc with
+  | notStarted => rw [hpc] at hap; cases hap
+  | done => rw [hpc] at hap; cases hap
+  | crashed e => rw [hpc] at hap; cases hap
+  | inUser b => rw [hpc] at hap; cases hap
+  | awaitWaiting wf => rw [hpc] at hap; cases hap
+  | awaitPaused pf =>
+    have hlag : ∀ p, Lag P { c with pc := .awaitPaused p } d := fun p =>
+      ⟨rfl, d0, n, hn, hD, hd, ⟨hm.core.sh, hm.core.st, hm.core.ckill, hm.core.dint, hm.core.dpaused⟩, hm.int, hm.stepping,
+        (by intro e he; cases he), hm.ncd⟩
+    -- the released case
+    have go : (terminal c.st.label = false → c.paused = none) → SL P (stepBody P fuel0 c) d := by
+      intro hpn
+      obtain ⟨n', rfl⟩ : ∃ n', n = n' + 1 := by
+        cases n with
+        | zero => simp [loopDone] at hD
+        | succ n' => exact ⟨n', rfl⟩
+      have hlab := hm.core.label
+      by_cases ht : terminal c.st.label = true
+      · have htd : terminal d0.st.label = true := hlab ▸ ht
+        obtain ⟨pf1, hi1⟩ := endOfStep_terminal_pf c ht hm.int hm.stepping
+        have hm1 : Mid (endOfStep { c with stepping := true } (.next none)) d0 :=
+          ⟨hm.core.left pf1, hi1, (by have := (sh_fields pf1.1).1; rw [this]; exact hm.stepping),
+            (by intro e he; rw [pf1.2.2.2, hpc] at he; cases he), hm.ncd⟩
+        unfold stepBody
+        rw [stepBodyK_terminal P _ c ht, hd, loopHead_term P n' d0 hm.ncd htd]
+        have hf : fuel0 = 999 + 1 := rfl
+        rw [hf, loopHead_term P 999 _ hm1.ncc (by rw [pf1.2.1]; exact ht)]
+        exact Or.inl (inStep_idle _ d0 .done hm1 rfl rfl)
+      · have htf : terminal c.st.label = false := by simpa using ht
+        have htd : terminal d0.st.label = false := hlab ▸ htf
+        have hcl : c.closed = d0.closed := (sh_fields hm.core.sh).2.2.2.1
+        have hcf : c.closed = false := not_closed_of_live hI htf
+        rw [hd, loopHead_go P n' d0 hm.ncd htd (hcl ▸ hcf) (not_held_of_none hm.core.dpaused)]
+        rw [loopDone_go P n' d0 hm.ncd htd (hcl ▸ hcf) hm.core.dpaused] at hD
+        unfold stepBody
+        exact stepBodyK_sim P _ _ _
+          (fun e e' hme hie hde => loopHead_sim P n' fuel0 e e' (by omega) (by omega) hme hie hde)
+          c d0 hm (hpn htf) hinv htf hD
+    unfold tickStepper
+    rw [hpc]
+    dsimp only
+    split
+    · split
+      · rename_i pf' hpa
+        split
+        · exact Or.inr (hlag pf')
+        · rename_i hne
+          apply go
+          intro hl
+          exact absurd (hinv.pausedPending hl pf' hpa) hne
+      · rename_i hpa
+        exact go (fun _ => hpa)
+    · exact Or.inr ⟨by rw [hpc]; rfl, d0, n, hn, hD, hd, hm⟩
+
+/-! ### pause and play requests: they only touch the pause machinery of the run with pauses -/
+
+theorem intOk_iff (c : Cfg) : IntOk c ↔ ∀ i, c.interrupt = some i →
+    actionKind c i = some .pause ∧ (actionStatus c i = .pending ∨ actionStatus c i = .cancelled) := by
+  constructor
+  · intro h i hi
+    obtain ⟨a, ha, hk, hs⟩ := h i hi
+    simp [actionKind, actionStatus, ha, hk, hs]
+  · intro h i hi
+    obtain ⟨hk, hs⟩ := h i hi
+    cases ha : c.actions[i]? with
+    | none => simp [actionKind, ha] at hk
+    | some a =>
+      refine ⟨a, rfl, ?_, ?_⟩
+      · simpa [actionKind, ha] using hk
+      · simpa [actionStatus, ha] using hs
+
+theorem cancelAction_status_self (c : Cfg) (i : Nat) (hk : actionKind c i = some .pause)
+    (hs : actionStatus c i = .pending ∨ actionStatus c i = .cancelled) :
+    actionStatus (cancelAction c i) i = .cancelled := by
+  unfold cancelAction
+  split
+  · cases ha : c.actions[i]? with
+    | none => simp [actionKind, ha] at hk
+    | some a =>
+      have hlt : i < c.actions.length := (List.getElem?_eq_some_iff.mp ha).1
+      simp [setActionStatus, ha, actionStatus, setAt, hlt]
+  · rename_i hnp
+    rcases hs with hs | hs
+    · exact absurd hs hnp
+    · exact hs
+
+theorem cancelAction_intOk (c : Cfg) (j : Nat) (h : IntOk c) : IntOk (cancelAction c j) := by
+  rw [intOk_iff] at h ⊢
+  intro i hi
+  rw [(cancelAction_fields c j).2.1] at hi
+  obtain ⟨hk, hs⟩ := h i hi
+  refine ⟨by rw [cancelAction_kind]; exact hk, ?_⟩
+  by_cases hij : j = i
+  · subst hij; exact Or.inr (cancelAction_status_self c j hk hs)
+  · rw [cancelAction_other c j i hij]; exact hs
+
+/-- bookkeeping only: nothing the simulation looks at changes -/
+def BFrame (c c' : Cfg) : Prop := PFrame c c' ∧ c'.interrupt = c.interrupt ∧ c'.actions = c.actions ∧ c'.paused = c.paused
+theorem BFrame.rfl' (c : Cfg) : BFrame c c := ⟨PFrame.rfl' c, rfl, rfl, rfl⟩
+theorem hand_bf (c : Cfg) (i : Nat) : BFrame c (hand c i) := by
+  unfold hand; split <;> exact ⟨⟨rfl, rfl, rfl, rfl⟩, rfl, rfl, rfl⟩
+
+theorem pause_shape (c : Cfg) (hk : c.killing = none) :
+    BFrame c (pause c).1 ∨
+    (c.stepping = false ∧ (pause c).1 = doPauseHooks c) ∨
+    (c.stepping = true ∧ c.paused = none ∧ BFrame (requestInterrupt c .pause) (pause c).1) := by
+  unfold pause
+  split
+  · exact Or.inl (BFrame.rfl' c)
+  · split
+    · exact Or.inl (BFrame.rfl' c)
+    · rename_i hnp
+      have hpn : c.paused = none := by
+        cases hp : c.paused with
+        | none => rfl
+        | some pf => simp [hp] at hnp
+      split
+      · exact Or.inl (hand_bf c _)
+      · split
+        · rename_i hks; simp [hk] at hks
+        · split
+          · rename_i hst
+            refine Or.inr (Or.inr ⟨hst, hpn, ?_⟩)
+            dsimp only
+            split
+            · exact ⟨PFrame.trans ⟨rfl, rfl, rfl, rfl⟩ (hand_bf _ _).1, (hand_bf _ _).2.1, (hand_bf _ _).2.2.1, (hand_bf _ _).2.2.2⟩
+            · exact ⟨⟨rfl, rfl, rfl, rfl⟩, rfl, rfl, rfl⟩
+          · rename_i hst
+            exact Or.inr (Or.inl ⟨by simpa using hst, rfl⟩)
+
+theorem requestInterrupt_props (c : Cfg) :
+    sh (requestInterrupt c .pause) = sh c ∧ (requestInterrupt c .pause).st = c.st ∧
+    (requestInterrupt c .pause).pc = c.pc ∧ (requestInterrupt c .pause).paused = c.paused ∧
+    IntOk (requestInterrupt c .pause) ∧ (requestInterrupt c .pause).interrupt ≠ none ∧
+    ((requestInterrupt c .pause).wfs = c.wfs ∨
+      ∃ fn wf wk aw, c.st = .waiting fn wf wk aw ∧ c.wfs[wf]? = some .pending ∧
+        (requestInterrupt c .pause).wfs = setAt c.wfs wf (.interrupted c.nextCookie)) := by
+  obtain ⟨n1, n2, n3⟩ := requestInterrupt_new c .pause
+  have hio : IntOk (requestInterrupt c .pause) := by
+    rw [intOk_iff]
+    intro i hi
+    rw [n1] at hi; cases hi
+    exact ⟨n2, Or.inl n3⟩
+  have hne : (requestInterrupt c .pause).interrupt ≠ none := by rw [n1]; intro h; cases h
+  have f := setInterruptFromExc_pf { c with nextCookie := c.nextCookie + 1 } .pause c.nextCookie
+  have fp := (setInterruptFromExc_pc { c with nextCookie := c.nextCookie + 1 } .pause c.nextCookie).2.2.1
+  refine ⟨?_, ?_, ?_, ?_, hio, hne, ?_⟩
+  all_goals unfold requestInterrupt interruptState
+  · split
+    · split
+      · exact f.1
+      · exact f.1
+    · exact f.1
+  · split
+    · split
+      · exact f.2.1
+      · exact f.2.1
+    · exact f.2.1
+  · split
+    · split
+      · exact f.2.2.2
+      · exact f.2.2.2
+    · exact f.2.2.2
+  · split
+    · split
+      · exact fp
+      · exact fp
+    · exact fp
+  · split
+    · rename_i fn wf wk aw hst
+      have hst' : c.st = .waiting fn wf wk aw := by rw [← f.2.1]; exact hst
+      split
+      · rename_i hpend
+        right
+        refine ⟨fn, wf, wk, aw, hst', by rw [← f.2.2.1]; exact hpend, ?_⟩
+        show setAt _ wf _ = _
+        rw [f.2.2.1]
+      · left; exact f.2.2.1
+    · left; exact f.2.2.1
+
+theorem play_shape (c : Cfg) :
+    PFrame c (play c).1 ∧ (play c).1.interrupt = c.interrupt ∧ (IntOk c → IntOk (play c).1) ∧ (play c).1.paused = none := by
+  unfold play
+  split
+  · rename_i hp
+    split
+    · rename_i i hi
+      have f := cancelAction_pf c i
+      refine ⟨PFrame.trans f ⟨rfl, rfl, rfl, rfl⟩, (cancelAction_fields c i).2.1, ?_, ?_⟩
+      · intro h; exact (cancelAction_intOk c i h).of_eq rfl rfl
+      · show (cancelAction c i).paused = none
+        rw [(cancelAction_pc c i).2.2.1]; exact hp
+    · exact ⟨PFrame.rfl' c, rfl, id, hp⟩
+  · dsimp only
+    split
+    · exact ⟨⟨by simp [sh, notPP], rfl, rfl, rfl⟩, rfl, fun h => h.of_eq rfl rfl, rfl⟩
+    · exact ⟨⟨by simp [sh, notPP], rfl, rfl, rfl⟩, rfl, fun h => h.of_eq rfl rfl, rfl⟩
+
 end PMF
